@@ -677,6 +677,12 @@ class EmptyStreamReader(StreamReader):  # lgtm [py/missing-call-to-init]
     def read_nowait(self, n: int = -1) -> bytes:
         return b""
 
+    def iter_chunks(self) -> ChunkTupleAsyncStreamIterator:
+        # readchunk() answers differently on its second call, and one object
+        # serves every bodyless message: iterating it a second time would
+        # never end. Each iteration gets a reader of its own.
+        return ChunkTupleAsyncStreamIterator(EmptyStreamReader())
+
 
 EMPTY_PAYLOAD: Final[StreamReader] = EmptyStreamReader()
 
